@@ -1,6 +1,6 @@
 //@host src/lib.rs
 //@always
-//@config dev
+//@config *
 // Shared helpers of the C05 / C15 harness modules (no harness lives here): bit-for-bit equality of every
 // state-carrying type (floats compared by `to_bits`, so NaN payloads and signed zeros are distinguished; this is
 // what "field-by-field bit-equal" means in the reset / frame / purity clauses), error projections used by the
@@ -20,8 +20,8 @@ impl Bits for i64 { fn beq(&self, o: &Self) -> bool { *self == *o } }
 impl Bits for f32 { fn beq(&self, o: &Self) -> bool { feq(*self, *o) } }
 impl Bits for Tok { fn beq(&self, o: &Self) -> bool { self.0 == o.0 } }
 impl Bits for Time { fn beq(&self, o: &Self) -> bool { self.0 == o.0 } }
-impl Bits for Unit { fn beq(&self, o: &Self) -> bool { *self == *o } }
-impl Bits for Quantity { fn beq(&self, o: &Self) -> bool { feq(self.value, o.value) && self.unit == o.unit } }
+impl Bits for Unit { fn beq(&self, o: &Self) -> bool { ueq(*self, *o) } }
+impl Bits for Quantity { fn beq(&self, o: &Self) -> bool { feq(self.value, o.value) && ueq(self.unit, o.unit) } }
 impl Bits for State { fn beq(&self, o: &Self) -> bool { state_bits_eq(*self, *o) } }
 impl Bits for Command { fn beq(&self, o: &Self) -> bool { command_bits_eq(*self, *o) } }
 impl Bits for PIDKValues {
